@@ -137,7 +137,21 @@ class Config:
                 tail = rng.integers(1, K + 1, size=N - K)
                 self.types_f[t] = np.concatenate([head, tail]).astype(int)
         self.Lmin = float(min(np.min(np.abs(np.diag(x))) for x in self.hs))
-        self.tables = [self._table(p, self.hs[t]) for t, p in enumerate(self.frames)]
+        # where the system sits and how it is stored: far from the origin (1e2 ... 1e8 box
+        # lengths away) and / or in single precision (what the HOOMD converters hand over)
+        far = float(r.get("far", 0.0))
+        if far and not self.exact:
+            shift = far * np.where(rng.random(ndim) < 0.5, -1.0, 1.0)
+            self.frames = [p + shift for p in self.frames]
+            self.origins = [o + shift for o in self.origins]
+            self.origin = self.origin + shift
+        self.dtype = np.float32 if (r.get("f32") and not self.exact) else np.float64
+        if self.dtype is np.float32:
+            self.frames = [p.astype(np.float32) for p in self.frames]
+        maxabs = max(float(np.max(np.abs(p))) for p in self.frames)
+        # ordering / membership are only decidable beyond the rounding of the stored coordinates
+        self.tol = max(1e-7 * self.Lmin, 64.0 * float(np.finfo(self.dtype).eps) * maxabs)
+        self.tables = [self._table(np.asarray(p, dtype=np.float64), self.hs[t]) for t, p in enumerate(self.frames)]
 
     def _table(self, pos, h):
         N = len(pos)
@@ -156,9 +170,9 @@ class Config:
         """No half-cell ties; per particle all distances pairwise separated."""
         if self.exact:
             return True
-        tol = 1e-7 * self.Lmin
+        tol = self.tol
         for D, smax in self.tables:
-            if smax > 0.5 - 1e-9:
+            if smax > 0.5 - max(1e-9, tol / self.Lmin):
                 return False
             for i in range(D.shape[0]):
                 d = np.sort(np.delete(D[i], i))
@@ -171,7 +185,7 @@ class Config:
     def cutoff_ok(self, rc):
         if self.exact:
             return True
-        tol = 1e-7 * self.Lmin
+        tol = self.tol
         rc = np.atleast_2d(np.asarray(rc, dtype=float))
         for D, _ in self.tables:
             for v in rc.ravel():
